@@ -353,9 +353,55 @@ static int op_xcopy(toks_t *t)
   return 1;
 }
 
+
+/* jfifsave <cs> <units> <xd> <yd> <L0> <L14> : libjpeg API.  A file written with a JFIF header carrying the given pixel density (cs 0 gray,
+ * 1 YCbCr) or with an Adobe marker (cs 2 CMYK, 3 YCCK, 4 RGB) is read back by an application that saves APP0 / APP14 markers with the
+ * length limits L0 / L14 (-1: does not ask for that marker): the header fields must be the ones written whatever the limits are. */
+static int op_jfifsave(toks_t *t)
+{
+  int cs = (int)tl(t, 1), units = (int)tl(t, 2), xd = (int)tl(t, 3), yd = (int)tl(t, 4), l0 = (int)tl(t, 5), l14 = (int)tl(t, 6), y, nc = cs == 0 ? 1 : (cs == 2 || cs == 3) ? 4 : 3;
+  struct jpeg_compress_struct c; struct jpeg_decompress_struct d; my_err_t e, e2; unsigned char *out = NULL; unsigned long outsize = 0; unsigned char row[8 * 4]; char why[200] = "";
+  J_COLOR_SPACE jcs = cs == 0 ? JCS_GRAYSCALE : cs == 1 ? JCS_YCbCr : cs == 2 ? JCS_CMYK : cs == 3 ? JCS_YCCK : JCS_RGB;
+  c.err = my_err_init(&e);
+  jpeg_create_compress(&c);
+  if (setjmp(e.jb)) { printf("R err %d\n", e.code); jpeg_destroy_compress(&c); free(out); return 1; }
+  jpeg_mem_dest(&c, &out, &outsize);
+  c.image_width = 8; c.image_height = 8; c.input_components = nc; c.in_color_space = cs == 0 ? JCS_GRAYSCALE : (cs == 2 || cs == 3) ? JCS_CMYK : JCS_RGB;
+  jpeg_set_defaults(&c);
+  jpeg_set_colorspace(&c, jcs);
+  c.density_unit = (UINT8)units; c.X_density = (UINT16)xd; c.Y_density = (UINT16)yd;
+  jpeg_start_compress(&c, TRUE);
+  for (y = 0; y < 8; y++) { JSAMPROW rp = row; int x; for (x = 0; x < 8 * nc; x++) row[x] = (unsigned char)(x * 9 + y * 31); jpeg_write_scanlines(&c, &rp, 1); }
+  jpeg_finish_compress(&c);
+  jpeg_destroy_compress(&c);
+  d.err = my_err_init(&e2);
+  jpeg_create_decompress(&d);
+  if (setjmp(e2.jb)) { printf("R err %d\n", e2.code); printf("O fail jfifsave: header of a file written by the library itself refused (error %d)\n", e2.code); }
+  else {
+    jpeg_mem_src(&d, out, outsize);
+    if (l0 >= 0) jpeg_save_markers(&d, JPEG_APP0, (unsigned int)l0);
+    if (l14 >= 0) jpeg_save_markers(&d, JPEG_APP0 + 14, (unsigned int)l14);
+    jpeg_read_header(&d, TRUE);
+    printf("R ok jfif%d adobe%d\n", d.saw_JFIF_marker, d.saw_Adobe_marker);
+    if (cs <= 1) {
+      if (!d.saw_JFIF_marker || d.density_unit != units || d.X_density != xd || d.Y_density != yd)
+        snprintf(why, sizeof(why), "density written as unit %d %dx%d, header read with APP0 save limit %d reports JFIF %d unit %d %ux%u", units, xd, yd, l0, d.saw_JFIF_marker, d.density_unit, d.X_density, d.Y_density);
+    } else {
+      int wt = cs == 3 ? 2 : 0;
+      if (!d.saw_Adobe_marker || d.Adobe_transform != wt) snprintf(why, sizeof(why), "Adobe marker written with transform %d, header read with APP14 save limit %d reports Adobe %d transform %d", wt, l14, d.saw_Adobe_marker, d.Adobe_transform);
+    }
+    if (!why[0] && d.jpeg_color_space != jcs) snprintf(why, sizeof(why), "colourspace written %d, reported %d (APP0 limit %d, APP14 limit %d)", (int)jcs, (int)d.jpeg_color_space, l0, l14);
+    if (why[0]) printf("O fail jfifsave: %s\n", why); else printf("O ok\n");
+  }
+  jpeg_destroy_decompress(&d);
+  free(out);
+  return 1;
+}
+
 static int dispatch_c16(toks_t *t)
 {
   const char *op = t->tok[0];
+  if (!strcmp(op, "jfifsave") && t->n >= 7) return op_jfifsave(t);
   if (!strcmp(op, "iccw")) return op_iccw(t);
   if (!strcmp(op, "iccr")) return op_iccr(t);
   if (!strcmp(op, "msave")) return op_msave(t);
